@@ -381,3 +381,15 @@ func errText(o object.Object) string {
 	}
 	return ""
 }
+
+// size is a cheap measure used to pick the smallest witness.
+func (v val) size() int {
+	n := 1 + len(v.S) + len(v.By)
+	for i, x := range v.L {
+		n += x.size()
+		if v.K == 'm' {
+			n += len(v.MK[i])
+		}
+	}
+	return n
+}
